@@ -21,8 +21,13 @@ pub struct Head {
 
 pub fn decode_head(tape: &[u8]) -> Head {
     let mut t = Tape::new(tape);
-    let kind = if t.below(2) == 0 { ElfKind::Exec } else { ElfKind::Dyn };
-    let debug = t.prob(64);
+    // executables, shared objects and relocatable objects (kernel-module shaped: the section-based loader)
+    let kind = match t.below(5) {
+        0 | 1 => ElfKind::Exec,
+        2 | 3 => ElfKind::Dyn,
+        _ => ElfKind::Lkm,
+    };
+    let debug = t.prob(if kind == ElfKind::Lkm { 128 } else { 64 });
     let pack = if t.prob(128) { Pack::User(t.u16() as u32) } else { Pack::None };
     let subset = t.u32();
     let partial_style = t.below(4);
